@@ -58,7 +58,39 @@ def check_g2(pid, tier):
     )
 
 
-CHECKS = {"C05": check_g1, "C07": check_g1, "C09": check_g1, "C08": check_g2}
+def check_g4(pid, tier):
+    from . import g4
+
+    t0 = time.time()
+    types = g4.type_lattice(tier)
+    direction = {"C02": "enc", "C03": "dec"}[pid]
+    payloads = [(pid, t, "default", direction) for t in types]
+    if pid == "C02":
+        for dn in ("nocopy_list", "nocopy_dict", "nocopy_both"):
+            payloads += [(pid, t, dn, "enc") for t in types if any(k in t for k in ("List", "list", "Dict", "dict", "Sequence", "Mapping"))][: (40 if tier == "quick" else 100000)]
+    results = runner.run_pool(g4.g4_task, payloads, chunks=2)
+    obs, crashes, trusted = [], [], set()
+    for r in results:
+        if "crash" in r:
+            crashes.append(r["crash"] + " @ " + r["payload"] + "\n" + r["trace"][-600:])
+            continue
+        obs.extend(r["obligations"])
+        trusted.update(r.get("trusted", ()))
+    what = "REF_ENC" if pid == "C02" else "REF_DEC"
+    return runner.finish(
+        pid, tier, obs, t0,
+        technique=f"VCs from the harvested generated code of `x: T` (pysym) against {what}(T), an independent reference reading of the type hints; z3; type lattice = leaf table + constructor templates over hole types + depth-2/3 compositions",
+        units=len(payloads),
+        extra_cov={"types": len(types), "exhaustive": False,
+                   "explanation": "one obligation per type expression (and dialect): all paths x all inputs, value equality and raise-iff against the reference"},
+        trusted=trusted | {"leaf callables (int, date.fromisoformat, UUID, ...) are uninterpreted: identity of the callee object is what is proved",
+                           "composition lemma of DESIGN 4.2 (paper argument) beyond the enumerated nesting depth"},
+        functions=["<generated> __mashumaro_from_dict__/__mashumaro_to_dict__ field expressions (pack.py / unpack.py registries)", "<generated> typed-dict / named-tuple helper functions"],
+        crashes=crashes,
+    )
+
+
+CHECKS = {"C02": check_g4, "C03": check_g4, "C05": check_g1, "C07": check_g1, "C09": check_g1, "C08": check_g2}
 
 
 def main(argv):
